@@ -375,4 +375,73 @@ theorem chunkRows_eq : ∀ (bs : List (List Nat)) (off : Nat),
     simp only [List.flatten_cons, h2, rowsOf_append]
 
 
+theorem inverseOf_aux (v : Nat) : ∀ (u : List Nat) (off : Nat), u.Pairwise (· < ·) →
+    sum ((List.range u.length).map (fun j => if u.getD j 0 = v then off + j else 0))
+      = if v ∈ u then off + u.idxOf v else 0
+  | [], off, _ => by simp [sum]
+  | a :: u, off, h => by
+    have ⟨p, q⟩ := List.pairwise_cons.1 h
+    rw [List.length_cons, List.range_succ_eq_map, List.map_cons, List.map_map, sum_cons]
+    have ih := inverseOf_aux v u (off + 1) q
+    have hcomp : ((fun j => if (a :: u).getD j 0 = v then off + j else 0) ∘ Nat.succ)
+        = (fun j => if u.getD j 0 = v then off + 1 + j else 0) := by
+      funext j; simp only [Function.comp, List.getD_cons_succ]; split <;> omega
+    rw [hcomp, ih]
+    by_cases hav : a = v
+    · subst hav
+      have hnot : a ∉ u := fun hm => by have := p a hm; omega
+      simp [hnot]
+    · have hva : ¬ v = a := fun e => hav e.symm
+      simp only [List.getD_cons_zero, hav, if_false, Nat.zero_add, List.mem_cons, hva, false_or]
+      split
+      · rename_i hm
+        have hbeq : (a == v) = false := by simpa using hav
+        rw [List.idxOf_cons, hbeq]; simp only [cond_false]; omega
+      · rfl
+
+theorem isum_append' (a b : List Int) : isum (a ++ b) = isum a + isum b := by
+  induction a with
+  | nil => simp [isum]
+  | cons x xs ih => simp only [List.cons_append, isum, List.foldr_cons] at ih ⊢; omega
+
+theorem wsum_append (x1 x2 : List Nat) (w1 w2 : List Int) (h : x1.length = w1.length) (v : Nat) :
+    wsum (x1 ++ x2) (w1 ++ w2) v = wsum x1 w1 v + wsum x2 w2 v := by
+  unfold wsum
+  rw [List.zip_append h, List.filterMap_append, isum_append']
+
+theorem wsum_zero_of_binLen_le {xs : List Nat} {ws : List Int} {i : Nat} (h : binLen xs ≤ i) : wsum xs ws i = 0 := by
+  unfold wsum
+  have : (xs.zip ws).filterMap (fun p => if p.1 = i then some p.2 else none) = [] := by
+    rw [List.filterMap_eq_nil_iff]
+    intro p hp
+    have hm : p.1 ∈ xs := (List.of_mem_zip hp).1
+    have := le_maxList hm
+    have hne : p.1 ≠ i := by
+      unfold binLen at h
+      cases xs with
+      | nil => simp at hm
+      | cons a l => simp at h; omega
+    simp [hne]
+  rw [this]; rfl
+
+theorem bincountW_eq (xs : List Nat) (ws : List Int) (m : Nat) :
+    bincountW xs ws m = (List.range (max m (binLen xs))).map (wsum xs ws) := rfl
+
+theorem bincountW_getD (xs : List Nat) (ws : List Int) (m i : Nat) : (bincountW xs ws m).getD i 0 = wsum xs ws i := by
+  rw [bincountW_eq, List.getD_eq_getElem?_getD, List.getElem?_map]
+  by_cases h : i < max m (binLen xs)
+  · rw [List.getElem?_range h]; rfl
+  · rw [List.getElem?_eq_none (by simpa using h)]
+    simp only [Option.map_none, Option.getD_none]
+    symm; apply wsum_zero_of_binLen_le; omega
+
+theorem isum_map_wsum : ∀ (bs : List (List Nat × List Int)), (∀ b ∈ bs, b.1.length = b.2.length) → ∀ (i : Nat),
+    isum (bs.map (fun b => wsum b.1 b.2 i)) = wsum (bs.flatMap (·.1)) (bs.flatMap (·.2)) i
+  | [], _, i => by simp [isum, wsum]
+  | b :: bs, h, i => by
+    simp only [List.map_cons, List.flatMap_cons]
+    rw [wsum_append _ _ _ _ (h b (by simp)), ← isum_map_wsum bs (fun b hb => h b (by simp [hb])) i]
+    rfl
+
+
 end Dask.Counting
